@@ -203,6 +203,21 @@ Theorem vsattr_search_text :
 Proof. exact vs_search_text. Qed.
 Print Assumptions vsattr_search_text.
 
+(* ---- (11) HIsync ------------------------------------------------------------------------------------------- *)
+(** the flush of a cached file: the extension to the reserved end does not depend on the DD-list step (both steps are
+    plain "if"s in hfile.c -- pinned), so every descriptor below the reserved end lies inside the flushed file *)
+Theorem flush_reaches_reserved_end : forall img bl f_end dd_dirty d,
+  0 <= dd_off d -> 0 <= dd_len d -> dd_off d + dd_len d <= f_end ->
+  in_image (hi_sync img bl f_end dd_dirty true) d.
+Proof. exact hi_sync_reaches_end. Qed.
+Print Assumptions flush_reaches_reserved_end.
+
+Theorem flush_steps_independent :
+  HIsync_ddlist_step = "if(file_rec->dirty&DDLIST_DIRTY)"%string /\
+  HIsync_extend_step = "if(file_rec->dirty&FILE_END_DIRTY)"%string.
+Proof. exact hisync_steps_text. Qed.
+Print Assumptions flush_steps_independent.
+
 (* ==== non-vacuity: every hypothesis above is met by a concrete, non-trivial object ======================== *)
 Definition ex_dd : dd := mkdd 16484 7 310 16.            (* a special (linked) descriptor *)
 Example ex_dd_ok : dd_ok ex_dd /\ p_dd (dd_encode ex_dd ++ [9]) = Some (ex_dd, [9]).
@@ -293,3 +308,7 @@ Proof. vm_compute. reflexivity. Qed.
 Example ex_vsattr :
   vs_getattdatainfo_entry [mkva 0 1962 5; mkva (-1) 1962 6; mkva 1 1962 7; mkva 0 1962 8] 0 1 = Some (mkva 0 1962 8).
 Proof. vm_compute. reflexivity. Qed.
+
+(** a 16-byte element reserved at offset 296 of a 298-byte file: after the flush it is inside the file *)
+Example ex_hisync : in_image (hi_sync (repeat 0 298%nat) [] 312 true true) (mkdd 1107 1 296 16).
+Proof. right. vm_compute. repeat split; discriminate. Qed.
